@@ -16,7 +16,7 @@ LEAN_MODULES = ["Gv.Props.C05"]
 REQUIRED_THEOREMS = ["Gv.Props.C05." + n for n in [
     "geneticCode_dispatch", "translateCodon_eq_spec", "translate_length", "translate_error_iff",
     "translate_residue", "gap_codon", "codon_gap_iff", "translate_eq_codons",
-    "codonAlign_rows", "codonAlign_length", "codonAlign_ungapped_rows", "codonAlign_translates_back",
+    "codonAlign_rows", "codonAlign_length", "codonAlign_ungapped_rows", "codonAlign_translates_back", "codonAlign_error_iff",
     "byRef_rectangular", "byRef_eq_translate_of_no_gaps_partial", "byRef_short_returns_empty_rows",
     "byRef_no_gaps_counterexample", "byRef_ref_row_prefix",
     "byRef_error_iff", "three_frames_names_and_count", "one_frame_names_and_count", "alignTranslate_length"]]
